@@ -153,12 +153,16 @@ func (v *Vue) evalBoundAttribute(ctx VueContext, attrName, expr string) (any, er
 			// an object given to anything else (a component prop: :user="{name: n, age: 3}") is
 			// a value of its own: a map of its keys with their typed values
 			obj := make(map[string]any)
-			for _, p := range v.parseObjectPairs(ctx, strings.TrimSpace(expr)[1:len(strings.TrimSpace(expr))-1]) {
+			pairs, err := v.parseObjectPairs(ctx, strings.TrimSpace(expr)[1:len(strings.TrimSpace(expr))-1])
+			if err != nil {
+				return nil, err
+			}
+			for _, p := range pairs {
 				obj[p.key] = p.val
 			}
 			return obj, nil
 		}
-		return v.evalObjectBinding(ctx, attrName, expr), nil
+		return v.evalObjectBinding(ctx, attrName, expr)
 	}
 
 	// Check if it's a function call or pipe expression
@@ -198,20 +202,23 @@ type objectPair struct {
 // evalObjectBinding evaluates object literals like {display: "none"} or {active: true, error: false}
 // For :class, treats values as booleans and includes keys where value is truthy.
 // For :style, treats values as strings and builds CSS property:value pairs.
-func (v *Vue) evalObjectBinding(ctx VueContext, attrName, expr string) string {
+func (v *Vue) evalObjectBinding(ctx VueContext, attrName, expr string) (string, error) {
 	expr = strings.TrimSpace(expr)
 	if !strings.HasPrefix(expr, "{") || !strings.HasSuffix(expr, "}") {
-		return ""
+		return "", nil
 	}
 
 	content := expr[1 : len(expr)-1] // Remove { }
-	pairs := v.parseObjectPairs(ctx, content)
+	pairs, err := v.parseObjectPairs(ctx, content)
+	if err != nil {
+		return "", err
+	}
 
 	switch attrName {
 	case "class":
-		return v.buildClassString(pairs)
+		return v.buildClassString(pairs), nil
 	case "style":
-		return v.buildStyleString(pairs)
+		return v.buildStyleString(pairs), nil
 	}
 
 	// For other attributes, just concatenate all values
@@ -221,12 +228,13 @@ func (v *Vue) evalObjectBinding(ctx VueContext, attrName, expr string) string {
 			values = append(values, fmt.Sprintf("%s:%v", p.key, p.val))
 		}
 	}
-	return strings.Join(values, " ")
+	return strings.Join(values, " "), nil
 }
 
 // parseObjectPairs parses key:value pairs from an object literal.
-// Returns the keys with their resolved (typed) values in order.
-func (v *Vue) parseObjectPairs(ctx VueContext, content string) []objectPair {
+// Returns the keys with their resolved (typed) values in order; the failure of a function called
+// in a value is an error (everything else a value cannot be evaluated to is nothing).
+func (v *Vue) parseObjectPairs(ctx VueContext, content string) ([]objectPair, error) {
 	var pairs []objectPair
 
 	// Split by comma, but respect quoted strings
@@ -250,6 +258,9 @@ func (v *Vue) parseObjectPairs(ctx VueContext, content string) []objectPair {
 
 		// Try to resolve as expression first (handles literals and expressions)
 		val, err := v.exprEval.Eval(valueExpr, v.exprEnv(ctx, valueExpr))
+		if isFuncCallError(err) {
+			return nil, fmt.Errorf("in expression '%s': %w", valueExpr, err)
+		}
 		if err != nil {
 			// Fall back to stack resolution for variable references;
 			// an undefined variable contributes nothing: falsy for class, omitted for style
@@ -259,7 +270,7 @@ func (v *Vue) parseObjectPairs(ctx VueContext, content string) []objectPair {
 		pairs = append(pairs, objectPair{key: key, val: val})
 	}
 
-	return pairs
+	return pairs, nil
 }
 
 // splitObjectItems splits comma-separated items in an object, respecting quoted strings.
